@@ -398,10 +398,12 @@ def preuse_num2d(num, model, nx, ny):
     import flowdyn.modeldisc as modeldisc
     import flowdyn.modelphy.euler as euler
     m = euler.euler2d(gamma=1.4)
-    decoy = build_mesh2d(dict(nx=ny + 1, ny=nx, lx=0.7, ly=1.9))
+    # the transposed cell counts (same number of cells, other row length) when the grid is not square, one more column otherwise
+    dnx, dny = (ny, nx) if nx != ny else (ny + 1, nx)
+    decoy = build_mesh2d(dict(nx=dnx, ny=dny, lx=0.7, ly=1.9))
     per = {"type": "per"}
     d = modeldisc.fvm2d(m, decoy, num=num, numflux="hlle", bclist=dict(left=per, right=per, bottom=per, top=per))
-    n = (ny + 1) * nx
+    n = dnx * dny
     w = 1.0 + 0.1 * np.sin(1.0 + 2.3 * np.arange(n))
     d.rhs(build_field(m, decoy, m.prim2cons([w, np.vstack([0.1 * w, -0.2 * w]), w])))
 
